@@ -529,4 +529,121 @@ theorem seekAll_lazyAt (o : RecOpt) (docs tfs : List Nat) (hv : ValidList docs t
       congr 1
       exact ih n' _ hp' hsmall (List.pairwise_cons.mp hs).2 (fun t' ht' => hts t' (by simp [ht'])) hrest
 
+/-! ### the term frequency buffer after a seek -/
+
+theorem skipSeek_unmoved (c : Cfg) (target fuel : Nat) (s : SkipReader)
+    (h : (SkipReader.seek c target fuel s).2 = false) : (SkipReader.seek c target fuel s).1 = s := by
+  cases fuel with
+  | zero => rfl
+  | succ f =>
+    unfold SkipReader.seek at h ⊢
+    split
+    · rfl
+    · rename_i hle
+      simp only [hle, if_false] at h
+      split at h <;> simp at h
+
+/-- the frequencies decoded for the block starting at doc index `n` -/
+theorem blockTfs_walk (c : Cfg) (o : RecOpt) (ho : hasFreq o = true) (hB : 0 < c.B) (hS : 2 ≤ c.S)
+    (hP : GoodPacker c.B c.P) (docs tfs data : List Nat) (hv : ValidList docs tfs) (n : Nat)
+    (S : SkipReader) (hw : Walk c o docs tfs data n S) (hne : docs.drop n ≠ []) :
+    blockTfs c S data =
+      some (if c.B ≤ (docs.drop n).length then (tfs.drop n).take c.B else tfs.drop n) := by
+  obtain ⟨prev, pre, hprev, hr, hdata⟩ := hw
+  by_cases hlen : c.B ≤ (docs.drop n).length
+  · obtain ⟨k, hk⟩ : ∃ k, (docs.drop n).length / c.B = k + 1 := by
+      have : 1 ≤ (docs.drop n).length / c.B := (Nat.one_le_div_iff hB).mpr hlen
+      exact ⟨(docs.drop n).length / c.B - 1, by omega⟩
+    rw [hk] at hr hdata
+    rw [if_pos hlen, hdata]
+    exact blockTfs_full c o ho hP k prev _ _ pre S (hv.drop n) hlen hr.1
+  · have hk : (docs.drop n).length / c.B = 0 := Nat.div_eq_of_lt (by omega)
+    rw [hk] at hr hdata
+    rw [if_neg hlen, hdata]
+    exact blockTfs_tail c o ho hS prev _ _ pre S (hv.drop n) hne hr.1
+
+/-- the frequency side of the cursor invariant -/
+def FreqsAt (c : Cfg) (p : BlockPostings) : Prop :=
+  p.freqOpt = .readFreq ∧ (p.loaded = true → ∀ t, blockTfs c p.skip p.data = some t → p.freqs = t)
+
+theorem open_freqsAt (c : Cfg) (o : RecOpt) (ho : hasFreq o = true) (hS : 2 ≤ c.S) (docs tfs : List Nat) :
+    FreqsAt c (BlockPostings.open c o o docs.length (encodeTerm c o docs tfs)) := by
+  unfold BlockPostings.open
+  simp only [splitSkips_encodeTerm c o hS, effectiveOpt_encodeTerm]
+  have hf : freqOptOf o o = .readFreq := by cases o <;> simp_all [freqOptOf, hasFreq]
+  refine ⟨by rw [loadBlock_freqOpt]; exact hf, fun _ t ht => ?_⟩
+  rw [loadBlock_skip, loadBlock_data] at ht
+  exact loadBlock_freqs c _ rfl hf t ht
+
+theorem seek_freqsAt (c : Cfg) (p : BlockPostings) (target : Nat) (hp : FreqsAt c p) :
+    FreqsAt c (p.seek c target).1 := by
+  obtain ⟨hf, hinv⟩ := hp
+  unfold BlockPostings.seek
+  simp only
+  cases hm : (SkipReader.seek c target (p.docFreq / c.B + 2) p.skip).2
+  · simp only [Bool.false_eq_true, if_false]
+    cases hl : p.loaded
+    · refine ⟨by rw [loadBlock_freqOpt]; exact hf, fun _ t ht => ?_⟩
+      rw [loadBlock_skip, loadBlock_data] at ht
+      exact loadBlock_freqs c p hl hf t ht
+    · rw [loadBlock_of_loaded c p hl]
+      exact ⟨hf, hinv⟩
+  · simp only [if_true]
+    refine ⟨by rw [loadBlock_freqOpt]; exact hf, fun _ t ht => ?_⟩
+    rw [loadBlock_skip, loadBlock_data] at ht
+    let q : BlockPostings := { p with skip := (SkipReader.seek c target (p.docFreq / c.B + 2) p.skip).1, loaded := false }
+    exact loadBlock_freqs c q rfl hf t ht
+
+/-- **doc and term frequency after a seek of the lazy cursor**: if some doc is `≥ target`, the
+frequency buffer shows, at the index the search returned, that doc's term frequency -/
+theorem seek_lazyAt_freq (o : RecOpt) (ho : hasFreq o = true) (docs tfs : List Nat) (hv : ValidList docs tfs)
+    (hT : ∀ d ∈ docs, d < cfg.T) (target : Nat) (ht : target ≤ cfg.T) (n : Nat) (p : BlockPostings)
+    (hp : LazyAt cfg o docs tfs n p) (hpf : FreqsAt cfg p)
+    (hbelow : ∀ d ∈ docs.take n, d < target)
+    (hrank : docs.countP (· < target) < docs.length) :
+    (p.seek cfg target).1.freqs.getD (p.seek cfg target).2 0 = tfs.getD (docs.countP (· < target)) 0 := by
+  obtain ⟨n', hn', hp', hloaded, hall, hidx, hlt, _⟩ := seek_lazyAt o docs tfs hv hT target ht n p hp
+  have hf' := seek_freqsAt cfg p target hpf
+  have hbelow' : ∀ d ∈ docs.take n', d < target := by
+    intro d hd
+    have e : docs.take n' = docs.take n ++ (docs.drop n).take (n' - n) := by
+      have e' : n' = n + (n' - n) := by omega
+      conv => lhs; rw [e', List.take_add]
+    rw [e, List.mem_append] at hd
+    rcases hd with hd | hd
+    · exact hbelow d hd
+    · exact hall d hd
+  have hn'le : n' ≤ docs.length := by
+    rcases Nat.lt_or_ge docs.length n' with h | h
+    · have htake : docs.take n' = docs := List.take_of_length_le (by omega)
+      rw [htake] at hbelow'
+      have := countP_lt_all _ _ hbelow'
+      omega
+    · exact h
+  have hr := rank_split docs target n' hn'le hbelow'
+  have hidxlt : (p.seek cfg target).2 < (docs.drop n').length := by
+    rw [hidx, List.length_drop]; omega
+  have hne : docs.drop n' ≠ [] := by
+    intro h; rw [h] at hidxlt; simp at hidxlt
+  have htf := blockTfs_walk cfg o ho (by decide) (by decide) bp4x_good docs tfs _ hv n' _ hp'.1 hne
+  rw [hf'.2 hloaded _ htf, hr, ← hidx]
+  have hB : (p.seek cfg target).2 < cfg.B := hlt
+  split
+  · simp only [List.getD_eq_getElem?_getD, List.getElem?_take, hB, if_true, List.getElem?_drop]
+  · simp only [List.getD_eq_getElem?_getD, List.getElem?_drop]
+
+theorem loadBlock_freqsAt (c : Cfg) (q : BlockPostings) (hq : q.loaded = false) (hf : q.freqOpt = .readFreq) :
+    FreqsAt c (q.loadBlock c) := by
+  refine ⟨by rw [loadBlock_freqOpt]; exact hf, fun _ t ht => ?_⟩
+  rw [loadBlock_skip, loadBlock_data] at ht
+  exact loadBlock_freqs c q hq hf t ht
+
+theorem reset_freqsAt (c : Cfg) (p : BlockPostings) (docFreq : Nat) (bytes : List Nat)
+    (hf : p.freqOpt = .readFreq) : FreqsAt c (p.reset c docFreq bytes) := by
+  unfold BlockPostings.reset
+  simp only
+  apply loadBlock_freqsAt
+  · rfl
+  · exact hf
+
 end TantivyModel.Postings
